@@ -430,7 +430,7 @@ def run_one(spec: dict) -> dict:
                         sched.yield_point("op", "admin")
                         do_admin(op)
                 sched.spawn("admin", admin_body)
-            tracer = LineTracer(sched, [drawing]) if spec.get("line") else None
+            tracer = LineTracer(sched, [drawing], granularity=spec.get("gran", "line")) if spec.get("line") else None
             if tracer:
                 tracer.install()
             try:
@@ -588,8 +588,10 @@ def gen(seed, tier="quick") -> dict:
             ops.append(gen_admin(g) if g.random() < 0.15 else gen_request(g))
         return {"seed": seed, "clients": [ops], "faults": faults}
     clients = [[gen_request(g) for _ in range(g.choice([2, 3, 5, 8]))] for _ in range(2)]
-    admin = [{"op": "root_move", "to": g.choice(["root", "root2", "sub"]), "relative": False} for _ in range(g.choice([1, 2, 4]))]
-    return {"seed": seed, "clients": clients, "admin_thread": admin, "faults": faults, "sched": g.choice(["random", "sticky", "pct1", "pct2", "pct3"]), "line": True}
+    admin = [{"op": "root_move", "to": g.choice(["root", "root2", "sub"]), "relative": False} for _ in range(g.choice([1, 2, 4, 6]))]
+    return {"seed": seed, "clients": clients, "admin_thread": admin, "faults": faults,
+            "sched": g.choice(["random", "sticky", "pct1", "pct2", "pct3", "retbias", "retbias", "retbias"]), "line": True,
+            "gran": g.choice(["line", "line", "instr"])}
 
 
 def plan(seed: int, tier: str) -> list[dict]:
